@@ -287,3 +287,100 @@ func fnFamily(m *Module, fn *ssa.Function) []*ssa.Function {
 	}
 	return order
 }
+
+// checkReadsOnly: fn computes its answer from the named primary fields of a struct (typ is the
+// qualified "pkgpath.Type"). If it also consults another field of that type — a derived index, a
+// memo — that field has to be kept in step with the primary ones: every write of a primary field
+// anywhere in the module (a store, a map update or delete through it) is followed on every path to
+// the writer's return by a store to the derived field, unless the object is being constructed. A
+// derived field that some writer leaves alone makes the answer lag behind the primary state.
+func checkReadsOnly(m *Module, r *Report, rule, key string, fn *ssa.Function, typ string, allowed ...string) {
+	ok := map[string]bool{}
+	for _, a := range allowed {
+		ok[a] = true
+	}
+	short := typ[strings.LastIndex(typ, ".")+1:]
+	derived := map[string]string{}
+	n := 0
+	for _, f := range withAnon(fn) {
+		for _, b := range f.Blocks {
+			for _, in := range b.Instrs {
+				fa, isFA := in.(*ssa.FieldAddr)
+				if !isFA {
+					continue
+				}
+				tn, field, _, okf := fieldAddrInfo(fa)
+				if !okf || tn != typ {
+					continue
+				}
+				n++
+				if !ok[field] {
+					if _, seen := derived[field]; !seen {
+						derived[field] = m.Pos(fa.Pos())
+					}
+				}
+			}
+		}
+	}
+	if n == 0 {
+		r.unresolved(rule, key, "no access to "+short+" found")
+		return
+	}
+	if len(derived) == 0 {
+		r.ok(rule, key, m.Pos(fn.Pos()), fmt.Sprintf("%d access(es), all of %s.%s", n, short, strings.Join(allowed, "/")))
+		return
+	}
+	var bad []string
+	var names []string
+	for d := range derived {
+		names = append(names, d)
+	}
+	sort.Strings(names)
+	for _, d := range names {
+		resets := func(in ssa.Instruction) bool {
+			st, isSt := in.(*ssa.Store)
+			if !isSt {
+				return false
+			}
+			fa, isFA := st.Addr.(*ssa.FieldAddr)
+			if !isFA {
+				return false
+			}
+			tn, f, _, okf := fieldAddrInfo(fa)
+			return okf && tn == typ && f == d
+		}
+		for _, p := range allowed {
+			for _, w := range fieldWriters(m, typ, p, true) {
+				if w.Fn == fn {
+					continue
+				}
+				// construction of a new object: the derived field starts empty
+				if st, isSt := w.In.(*ssa.Store); isSt {
+					if fa, isFA := st.Addr.(*ssa.FieldAddr); isFA {
+						if _, fresh := strip(fa.X).(*ssa.Alloc); fresh {
+							continue
+						}
+					}
+				}
+				if mu, isMU := w.In.(*ssa.MapUpdate); isMU {
+					if _, _, base, okb := fieldOf(mu.Map); okb {
+						if _, fresh := strip(base).(*ssa.Alloc); fresh {
+							continue
+						}
+					}
+				}
+				if done, path := mustPassAfter(m, w.In, resets); !done {
+					bad = append(bad, fmt.Sprintf("%s changes %s.%s at %s and can return without re-setting %s.%s (%s)", funcName(w.Fn), short, p, m.Pos(w.In.Pos()), short, d, path))
+				}
+			}
+		}
+	}
+	if len(bad) > 0 {
+		if len(bad) > 3 {
+			bad = append(bad[:3], fmt.Sprintf("… and %d more", len(bad)-3))
+		}
+		r.viol(rule, key, m.Pos(fn.Pos()), "the answer also depends on "+short+"."+strings.Join(names, ", ")+" (read at "+derived[names[0]]+"), which lags behind: "+strings.Join(bad, "; "))
+		return
+	}
+	r.ok(rule, key, m.Pos(fn.Pos()), "derived field(s) "+strings.Join(names, ", ")+" are re-set by every writer of "+strings.Join(allowed, "/"))
+}
